@@ -11,6 +11,7 @@ from .interp import NOT_HANDLED, TOP, Ext, SliceV, register_host_type, to_host_i
 from .nphooks import np_name
 
 register_host_type(np.ndarray)
+register_host_type(np.generic)
 
 _PURE = {
     'concatenate', 'hstack', 'vstack', 'stack', 'array', 'asarray', 'reshape', 'transpose', 'zeros', 'ones',
@@ -123,3 +124,163 @@ def _to_obj_lists(x):
     if isinstance(x, (list, tuple)) and not isinstance(x, Entry):
         return [_to_obj_lists(y) for y in x]
     return x
+
+
+# ---------------------------------------------------------------- MiniCSR
+
+class _DataView:
+    """`.data` of a MiniCSR; supports `data %= 2` / `data % 2` and `== 1`."""
+
+    def __init__(self, owner: 'MiniCSR', mod: int = 0):
+        self.owner, self.mod = owner, mod
+
+    def __mod__(self, m):
+        return _DataView(self.owner, m)
+
+    __imod__ = __mod__
+
+    def __eq__(self, o):
+        a = self.owner.a
+        nz = a[_nonzero_mask(a)]
+        return np.array([x == o for x in nz], dtype=bool)
+
+    __hash__ = None
+
+
+def _nonzero_mask(a: np.ndarray) -> np.ndarray:
+    if a.dtype == object:
+        return np.array([[not _is_zero(x) for x in row] for row in a], dtype=bool).reshape(a.shape)
+    return a != 0
+
+
+def _is_zero(x) -> bool:
+    z = getattr(x, 'is_zero', None)
+    if z is not None:
+        return z()
+    try:
+        return x == 0
+    except Exception:
+        return False
+
+
+class MiniCSR:
+    """Tiny stand-in for scipy.sparse.csr_matrix / dok_matrix over a dense 2-D
+    numpy array (numeric or symbolic object entries)."""
+
+    def __init__(self, a):
+        a = np.array(a) if not isinstance(a, np.ndarray) else a
+        if a.ndim == 1:
+            a = a.reshape(1, -1)
+        self.a = a
+
+    @staticmethod
+    def zeros(shape, dtype=int):
+        return MiniCSR(np.zeros(shape, dtype=dtype))
+
+    @property
+    def shape(self):
+        return self.a.shape
+
+    @property
+    def T(self):
+        return MiniCSR(self.a.T)
+
+    @property
+    def data(self):
+        return _DataView(self)
+
+    def pqv_setattr(self, name, value):
+        if name == 'data' and isinstance(value, _DataView) and value.owner is self and value.mod:
+            self.a = self.a % value.mod
+            return
+        raise AttributeError(name)
+
+    @property
+    def indices(self):
+        return np.nonzero(_nonzero_mask(self.a))[1]
+
+    def nonzero(self):
+        return np.nonzero(_nonzero_mask(self.a))
+
+    def getnnz(self, axis=None):
+        return _nonzero_mask(self.a).sum(axis=axis)
+
+    def dot(self, o):
+        ob = o.a if isinstance(o, MiniCSR) else o
+        return MiniCSR(self.a.dot(ob))
+
+    def __add__(self, o):
+        return MiniCSR(self.a + (o.a if isinstance(o, MiniCSR) else o))
+
+    def __getitem__(self, idx):
+        r = self.a[idx]
+        if isinstance(r, np.ndarray):
+            if r.ndim == 1:
+                # row or column selection keeps 2-D like scipy
+                if isinstance(idx, tuple) and len(idx) == 2 and isinstance(idx[1], (int, np.integer)):
+                    r = r.reshape(-1, 1)
+                else:
+                    r = r.reshape(1, -1)
+            return MiniCSR(r)
+        return r
+
+    def __setitem__(self, idx, v):
+        self.a[idx] = v
+
+    def __iter__(self):
+        for i in range(self.a.shape[0]):
+            yield MiniCSR(self.a[i:i + 1])
+
+    def __len__(self):
+        return self.a.shape[0]
+
+    def toarray(self):
+        return np.array(self.a)
+
+    todense = toarray
+
+    def tocsr(self):
+        return self
+
+    def copy(self):
+        return MiniCSR(np.array(self.a))
+
+    def astype(self, *a, **k):
+        return self
+
+    def pqv_isinstance(self, types):
+        from .interp import Ext
+        for t in types:
+            if isinstance(t, Ext) and t.name.split('.')[-1] in ('csr_matrix', 'spmatrix', 'dok_matrix'):
+                return True
+        return False
+
+    def __repr__(self):
+        return f'MiniCSR({self.a.tolist()!r})'
+
+
+register_host_type(MiniCSR)
+register_host_type(_DataView)
+
+
+def scipy_ctor(func, args, kwargs):
+    """csr_matrix(...) / dok_matrix(...) constructors."""
+    if not isinstance(func, Ext):
+        return NOT_HANDLED
+    last = func.name.split('.')[-1]
+    if last not in ('csr_matrix', 'dok_matrix'):
+        return NOT_HANDLED
+    if not args:
+        return TOP
+    a = args[0]
+    if isinstance(a, MiniCSR):
+        return a
+    if isinstance(a, np.ndarray):
+        return MiniCSR(np.array(a))
+    if isinstance(a, list):
+        return MiniCSR(np.array(a))
+    if isinstance(a, tuple) and len(a) == 2 and all(isinstance(x, (int, np.integer)) for x in a):
+        return MiniCSR.zeros(a)
+    if isinstance(a, tuple) and 'shape' in kwargs:          # (data, (rows, cols)) form: empty matrices only
+        return MiniCSR.zeros(kwargs['shape'])
+    return TOP
